@@ -37,6 +37,7 @@ type Engine struct {
 	redirect  map[string]*ssa.Function
 	pure      map[string]bool
 	initPkgs  map[string]bool
+	initSet   map[string]bool // globals set by an initialiser that is not interpreted
 	funcs     map[string]bool // functions interpreted
 	models    map[string]int  // intercepts / redirects hit
 	maxUnwind int
@@ -222,6 +223,11 @@ func (e *Engine) globalPtr(st *State, g *ssa.Global) Val {
 		// (strconv.ErrRange, io.EOF, ...): distinct non-nil opaque errors
 		init = opaqueErrNamed(st, key)
 	} else {
+		if e.initSet[key] {
+			if _, isIface := et.Underlying().(*types.Interface); !isIface {
+				abort("unsupported", "global %s is set by the initialiser of package %s, which is not interpreted", key, g.Pkg.Pkg.Path())
+			}
+		}
 		init = e.zero(et)
 	}
 	id := st.alloc(init)
